@@ -132,6 +132,22 @@ theorem first_accept_wins (env : Env) (cfg : Cfg) (t0 : Nat) (ticks : List Nat)
     exact ⟨pre, ep, rest, by rw [← hC, hatt]; simp, hpre trivial, hok, hsock, hatt⟩
   · rw [(exec_illFormed env cfg t0 ticks hwf).1] at hc; cases hc
 
+/-- The schedule hypothesis of `first_accept_wins` cannot be dropped: `xmpp_run_once` tests the
+    timeout BEFORE it asks `select()`, so an application that first runs the loop more than
+    CONNECT_TIMEOUT ms after the connect call has the (accepting) first candidate judged "timed
+    out".  Both targets accept, the loop starts 6 s late, the second one is used
+    (corpus/C14/starved.ops shows the same on the real code).  In the property's words the first
+    attempt "timed out"; `accepted_endpoint` is what holds for every schedule. -/
+theorem starved_loop_may_skip :
+    ∃ (env : Env) (cfg : Cfg) (ticks : List Nat),
+      (exec true env cfg 0 ticks).run.conn.state = .connected ∧
+      ∃ first second, candidates env cfg = [first, second] ∧ (env.beh first).ok = true ∧
+        (exec true env cfg 0 ticks).run.conn.sock = some second ∧ first ≠ second :=
+  ⟨{ srv := some [⟨1, 0, 5222, cs ['a']⟩, ⟨2, 0, 5222, cs ['b']⟩],
+     addrs := fun h => if h = cs ['a'] then [⟨4, 1⟩] else if h = cs ['b'] then [⟨4, 2⟩] else [],
+     beh := fun _ => .accept },
+   ⟨.raw, cs ['x'], none, 0, 0⟩, [6000], by decide, (⟨4, 1⟩, 5222), (⟨4, 2⟩, 5222), by decide⟩
+
 /-- failure (return code of the connect call, or a DISCONNECT notification) is reported only
     after every candidate was attempted -/
 theorem failure_only_after_all (env : Env) (cfg : Cfg) (t0 : Nat) (ticks : List Nat)
